@@ -1399,7 +1399,20 @@ impl World {
             13 => self.tick(a),
             _ => {
                 if self.slots[b].up && !self.cut.contains(&(a.min(b), a.max(b))) {
-                    self.handshake(a, b);
+                    // sometimes a full synchronisation: handshakes until neither side moves any more (states larger than
+                    // one datagram need several), which parks copies exactly on the other side's frontier / watermark
+                    let rounds = if self.rng.random_range(0..3) == 0 { 6 } else { 1 };
+                    for _ in 0..rounds {
+                        let before: Vec<(u64, u64)> = [a, b].iter().flat_map(|s| self.slots[*s].snap.copies.values().map(|c| (c.gc, c.mv)).collect::<Vec<_>>()).collect();
+                        self.handshake(a, b);
+                        let after: Vec<(u64, u64)> = [a, b].iter().flat_map(|s| self.slots[*s].snap.copies.values().map(|c| (c.gc, c.mv)).collect::<Vec<_>>()).collect();
+                        if before == after || self.aborted {
+                            break;
+                        }
+                    }
+                    if rounds > 1 {
+                        self.stats.inc("full_synchronisations");
+                    }
                 }
             }
         }
